@@ -405,4 +405,29 @@ theorem parseTable_uao_file (header : Bytes) (rows : List (Nat × Nat)) (cr : Bo
 (observed on the real loader by the `tbl` ops of the harness; out of the property's scope, recorded). -/
 theorem parseLine_short_field_panics : parseLine [48, 32, 48, 120, 52, 49] = .error .panic := by rfl
 
+/-! #### I. the configured table paths (types/config.go, regenerated data) -/
+
+/-- `config()` assigns each of the two table-path variables exactly once, through `setStringConfig`, from the ini
+key of its OWN name and with its OWN previous value as default (kernel evaluation over the regenerated list:
+a copy-paste slip in a key or a default breaks this theorem). -/
+theorem config_reads_pinned :
+    Gen.Big5.configReads.filter (fun r => r.var == "BIG5_TO_UTF8" || r.var == "UTF8_TO_BIG5") =
+      [⟨"BIG5_TO_UTF8", "setStringConfig", "BIG5_TO_UTF8", "go-pttbbs:types.big5_to_utf8", "BIG5_TO_UTF8"⟩,
+       ⟨"UTF8_TO_BIG5", "setStringConfig", "UTF8_TO_BIG5", "go-pttbbs:types.utf8_to_big5", "UTF8_TO_BIG5"⟩] := by
+  decide
+
+/-- hence, for EVERY ini content and every initial value: after `config()` each table path is the ini value of its
+own key when that key is set, and its default otherwise — the two tables cannot be swapped or doubled by configuration. -/
+theorem config_resolves (ini env : Env) :
+    cfgVar (runConfig Gen.Big5.configReads ini env) "BIG5_TO_UTF8" =
+      (ini.lookup "go-pttbbs:types.big5_to_utf8").getD (cfgVar env "BIG5_TO_UTF8") ∧
+    cfgVar (runConfig Gen.Big5.configReads ini env) "UTF8_TO_BIG5" =
+      (ini.lookup "go-pttbbs:types.utf8_to_big5").getD (cfgVar env "UTF8_TO_BIG5") := by
+  simp only [runConfig, Gen.Big5.configReads, List.foldl_cons, List.foldl_nil, cfgStep, cfgVar]
+  constructor
+  · simp [List.lookup]
+    cases ini.lookup "go-pttbbs:types.big5_to_utf8" <;> simp
+  · simp [List.lookup]
+    cases ini.lookup "go-pttbbs:types.utf8_to_big5" <;> simp
+
 end PttVerif.C17.Props
